@@ -732,9 +732,13 @@ impl<
         }
 
         pl.info(format_args!("Using 2^{} buckets", self.log2_buckets));
+        #[cfg(sux_verif)]
+        crate::verif::build_event("start", self.log2_buckets as u64);
 
         // Loop until success or duplicate detection
         loop {
+            #[cfg(sux_verif)]
+            crate::verif::build_event("attempt", dup_count as u64);
             let seed = prng.random();
 
             match if self.offline {
@@ -769,6 +773,8 @@ impl<
                 )
             } {
                 Ok(func) => {
+                    #[cfg(sux_verif)]
+                    crate::verif::build_event("ok", 0);
                     return Ok(func);
                 }
                 Err(error) => {
@@ -777,7 +783,11 @@ impl<
                             // Let's try another seed, but just a few times--most likely,
                             // duplicate keys
                             SolveError::DuplicateSignature => {
+                                #[cfg(sux_verif)]
+                                crate::verif::build_event("dup_sig", dup_count as u64);
                                 if dup_count >= 3 {
+                                    #[cfg(sux_verif)]
+                                    crate::verif::build_event("fail_dup", dup_count as u64);
                                     pl.error(format_args!("Duplicate keys (duplicate 128-bit signatures with four different seeds)"));
                                     return Err(BuildError::DuplicateKey.into());
                                 }
@@ -788,7 +798,11 @@ impl<
                             }
                             // Let's try another seed, but just a few times
                             SolveError::DuplicateLocalSignature => {
+                                #[cfg(sux_verif)]
+                                crate::verif::build_event("dup_local", local_dup_count as u64);
                                 if local_dup_count >= 2 {
+                                    #[cfg(sux_verif)]
+                                    crate::verif::build_event("fail_dup_local", local_dup_count as u64);
                                     pl.error(format_args!("Duplicate local signatures: use full signatures (duplicate local signatures with three different seeds)"));
                                     return Err(BuildError::DuplicateLocalSignatures.into());
                                 }
@@ -798,12 +812,16 @@ impl<
                                 local_dup_count += 1;
                             }
                             SolveError::MaxShardTooBig => {
+                                #[cfg(sux_verif)]
+                                crate::verif::build_event("max_shard_too_big", 0);
                                 pl.warn(format_args!(
                                 "The maximum shard is too big, trying again with a different seed..."
                                ));
                             }
                             // Let's just try another seed
                             SolveError::UnsolvableShard => {
+                                #[cfg(sux_verif)]
+                                crate::verif::build_event("unsolvable", 0);
                                 pl.warn(format_args!(
                                     "Unsolvable shard, trying again with a different seed..."
                                 ));
@@ -814,6 +832,8 @@ impl<
                 }
             }
 
+            #[cfg(sux_verif)]
+            crate::verif::build_event("rewind", 0);
             values = values.rewind()?;
             keys = keys.rewind()?;
         }
@@ -892,6 +912,8 @@ impl<
         pl.done();
 
         self.num_keys = sig_store.len();
+        #[cfg(sux_verif)]
+        crate::verif::build_event("keys", self.num_keys as u64);
         self.bit_width = if TypeId::of::<V>() == TypeId::of::<EmptyVal>() {
             bit_width.expect("Bit width must be set for filters")
         } else {
@@ -916,11 +938,21 @@ impl<
         let start = Instant::now();
 
         shard_edge.set_up_shards(self.num_keys, self.eps);
+        #[cfg(sux_verif)]
+        crate::verif::build_event("edge_bits", shard_edge.shard_high_bits() as u64);
+        #[cfg(sux_verif)]
+        crate::verif::build_event("store_bits", shard_edge.shard_high_bits() as u64);
         let shard_store = sig_store.into_shard_store(shard_edge.shard_high_bits())?;
         let max_shard = shard_store.shard_sizes().iter().copied().max().unwrap_or(0);
+        #[cfg(sux_verif)]
+        crate::verif::build_event("max_shard", max_shard as u64);
         let filter = TypeId::of::<V>() == TypeId::of::<EmptyVal>();
 
         (self.c, self.lge) = shard_edge.set_up_graphs(self.num_keys, max_shard);
+        #[cfg(sux_verif)]
+        crate::verif::build_event("num_shards", shard_edge.num_shards() as u64);
+        #[cfg(sux_verif)]
+        crate::verif::build_event("num_vertices", shard_edge.num_vertices() as u64);
 
         if filter {
             pl.info(format_args!(
